@@ -16,6 +16,7 @@ void dump_more_util();
 void dump_more_macro();
 void dump_more_link();
 void dump_more_reader();
+void dump_more_m6502();
 static void dump_more()
 {
   dump_more_cond();
@@ -32,5 +33,6 @@ static void dump_more()
   dump_more_macro();
   dump_more_link();
   dump_more_reader();
+  dump_more_m6502();
 }
 #endif
